@@ -313,6 +313,24 @@ func (e *FnEnc) block(b *ssa.BasicBlock) {
 		}
 	}
 	e.exit[b] = copyState(e.cur)
+	// "complete" loops: an edge that leaves the loop from anywhere but its header is an early exit
+	if e.con != nil {
+		for _, li := range e.loopList {
+			lc := e.con.Loops[li.ordinal]
+			if lc == nil || lc.Complete == nil || !clauseActive(*lc.Complete, e.prop) || !li.blocks[b] || b == li.header {
+				continue
+			}
+			for _, sc := range b.Succs {
+				if !li.blocks[sc] {
+					e.oblige(&Obligation{Name: fmt.Sprintf("loop%d.complete@b%d.b%d", li.ordinal, b.Index, sc.Index), Kind: "protocol", Clause: lc.Complete.Src, Tags: lc.Complete.Tags,
+						Guard: e.edgeGuard(b, sc), Goal: "false"})
+				}
+			}
+			if _, isRet := b.Instrs[len(b.Instrs)-1].(*ssa.Return); isRet {
+				e.oblige(&Obligation{Name: fmt.Sprintf("loop%d.complete@b%d.return", li.ordinal, b.Index), Kind: "protocol", Clause: lc.Complete.Src, Tags: lc.Complete.Tags, Guard: e.curGuard, Goal: "false"})
+			}
+		}
+	}
 	// back edges leaving this block
 	for _, s := range b.Succs {
 		if isBackEdge(b, s) {
@@ -1084,6 +1102,31 @@ func (e *FnEnc) lookupName(env *Env, name string, phiOver map[*ssa.Phi]Val) (Val
 		if best != nil {
 			if v, ok := e.vals[best]; ok {
 				return v, true
+			}
+		}
+	}
+	// a local that lives in a heap cell (captured by a function literal) and whose debug bindings are all loads of
+	// that cell denotes the cell's *current* content (the state the clause is evaluated in), not one particular load
+	if bs := e.debugNames[name]; len(bs) > 0 {
+		var cell *ssa.Alloc
+		n := 0
+		for _, b := range e.fn.Blocks {
+			for _, in := range b.Instrs {
+				if a, isA := in.(*ssa.Alloc); isA && a.Comment == name && a.Heap {
+					cell = a
+					n++
+				}
+			}
+		}
+		ok := n == 1
+		for _, b := range bs {
+			if b.addr {
+				ok = false
+			}
+		}
+		if ok {
+			if pv, have := e.vals[cell]; have {
+				return env.deref(pv), true
 			}
 		}
 	}
